@@ -1,7 +1,249 @@
 import Model.Compact
+import Mathlib.Tactic
+import Mathlib.Data.List.Perm.Subperm
+
+/-!
+Helper lemmas for C13: `uniq`, `gather`, validity, `swap`, and the row assignment
+(`_rows_for_secondaries`).
+-/
+
 namespace Compact
+
+/-! ## uniq -/
+
+theorem mem_uniqGo {seen l : List Nat} {a : Nat} : a ∈ uniqGo seen l ↔ a ∈ l ∧ a ∉ seen := by
+  induction l generalizing seen with
+  | nil => simp [uniqGo]
+  | cons x xs ih =>
+    unfold uniqGo
+    by_cases hx : x ∈ seen
+    · simp only [hx, if_true, ih, List.mem_cons]
+      constructor
+      · rintro ⟨h1, h2⟩; exact ⟨Or.inr h1, h2⟩
+      · rintro ⟨h1 | h1, h2⟩
+        · subst h1; exact absurd hx h2
+        · exact ⟨h1, h2⟩
+    · simp only [hx, if_false, List.mem_cons, ih]
+      constructor
+      · rintro (h | ⟨h1, h2⟩)
+        · subst h; exact ⟨Or.inl rfl, hx⟩
+        · exact ⟨Or.inr h1, fun h => h2 (Or.inr h)⟩
+      · rintro ⟨h1 | h1, h2⟩
+        · exact Or.inl h1
+        · by_cases e : a = x
+          · exact Or.inl e
+          · exact Or.inr ⟨h1, by rintro (h | h); exacts [e h, h2 h]⟩
+
+theorem nodup_uniqGo (seen l : List Nat) : (uniqGo seen l).Nodup := by
+  induction l generalizing seen with
+  | nil => simp [uniqGo]
+  | cons x xs ih =>
+    unfold uniqGo
+    by_cases hx : x ∈ seen
+    · simp only [hx, if_true]; exact ih seen
+    · simp only [hx, if_false, List.nodup_cons]
+      refine ⟨?_, ih _⟩
+      intro h
+      exact (mem_uniqGo.mp h).2 (List.mem_cons_self ..)
+
+theorem mem_uniq {l : List Nat} {a : Nat} : a ∈ uniq l ↔ a ∈ l := by
+  simp [uniq, mem_uniqGo]
+
+theorem nodup_uniq (l : List Nat) : (uniq l).Nodup := nodup_uniqGo [] l
+
+/-- `np.unique(x).size` ≤ `x.size` -/
+theorem length_uniq_le (l : List Nat) : (uniq l).length ≤ l.length :=
+  ((nodup_uniq l).subperm (fun _ h => mem_uniq.mp h)).length_le
+
+/-! ## gather -/
+
+theorem gather_length {data : List Row} {idx : List Nat} {r : List Row}
+    (h : gather data idx = some r) : r.length = idx.length := by
+  induction idx generalizing r with
+  | nil => simp [gather] at h; subst h; rfl
+  | cons i is ih =>
+    unfold gather at h
+    split at h
+    · rename_i v vs h1 h2
+      simp only [Option.some.injEq] at h; subst h
+      simp [ih h2]
+    · simp at h
+
+theorem gather_getElem? {data : List Row} {idx : List Nat} {r : List Row}
+    (h : gather data idx = some r) (k : Nat) : r[k]? = (idx[k]?).bind (fun i => data[i]?) := by
+  induction idx generalizing r k with
+  | nil => simp [gather] at h; subst h; simp
+  | cons i is ih =>
+    unfold gather at h
+    split at h
+    · rename_i v vs h1 h2
+      simp only [Option.some.injEq] at h; subst h
+      cases k with
+      | zero => simp [h1]
+      | succ k => simpa using ih h2 k
+    · simp at h
+
+theorem gather_isSome {data : List Row} {idx : List Nat} (h : ∀ i ∈ idx, i < data.length) :
+    ∃ r, gather data idx = some r := by
+  induction idx with
+  | nil => exact ⟨[], rfl⟩
+  | cons i is ih =>
+    obtain ⟨r, hr⟩ := ih (fun j hj => h j (List.mem_cons_of_mem _ hj))
+    have hi : i < data.length := h i (List.mem_cons_self ..)
+    refine ⟨data[i] :: r, ?_⟩
+    unfold gather
+    simp [hr, List.getElem?_eq_getElem hi]
+
+theorem gather_some_bound {data : List Row} {idx : List Nat} {r : List Row}
+    (h : gather data idx = some r) : ∀ i ∈ idx, i < data.length := by
+  induction idx generalizing r with
+  | nil => simp
+  | cons i is ih =>
+    unfold gather at h
+    split at h
+    · rename_i v vs h1 h2
+      intro j hj
+      rcases List.mem_cons.mp hj with rfl | hj
+      · by_contra hc
+        rw [List.getElem?_eq_none (by omega)] at h1
+        simp at h1
+      · exact ih h2 j hj
+    · simp at h
+
+/-! ## validity -/
+
+theorem validB_iff (c : Compact) : validB c = true ↔ Valid c := by
+  unfold validB Valid
+  simp only [Bool.and_eq_true, List.all_eq_true, List.any_eq_true, decide_eq_true_eq,
+    List.mem_range, beq_iff_eq, and_assoc]
+
+instance (c : Compact) : Decidable (Valid c) := decidable_of_iff _ (validB_iff c)
+
 theorem swap_swap (c : Compact) : swap (swap c) = c := by
   cases c with
   | mk pairs P S =>
     simp [swap, List.map_map, Function.comp_def]
+
+theorem valid_swap {c : Compact} (h : Valid c) : Valid (swap c) := by
+  obtain ⟨h1, h2, h3⟩ := h
+  refine ⟨?_, ?_, ?_⟩
+  · intro p hp
+    simp only [swap, List.mem_map] at hp
+    obtain ⟨q, hq, rfl⟩ := hp
+    exact ⟨(h1 q hq).2, (h1 q hq).1⟩
+  · intro i hi
+    obtain ⟨q, hq, e⟩ := h3 i hi
+    exact ⟨(q.2, q.1), by simp only [swap, List.mem_map]; exact ⟨q, hq, rfl⟩, e⟩
+  · intro i hi
+    obtain ⟨q, hq, e⟩ := h2 i hi
+    exact ⟨(q.2, q.1), by simp only [swap, List.mem_map]; exact ⟨q, hq, rfl⟩, e⟩
+
+/-- a valid dataset has at least as many pairs as stored reference points (pigeonhole) -/
+theorem valid_P_le_pairs {c : Compact} (h : Valid c) : c.P.length ≤ c.pairs.length := by
+  have hsub : List.range c.P.length ⊆ refs c := by
+    intro i hi
+    obtain ⟨p, hp, e⟩ := h.2.1 i (List.mem_range.mp hi)
+    exact List.mem_map.mpr ⟨p, hp, e⟩
+  have := ((List.nodup_range (n := c.P.length)).subperm hsub).length_le
+  simpa [refs] using this
+
+theorem valid_uniq_refs {c : Compact} (h : Valid c) : (uniq (refs c)).length = c.P.length := by
+  have h1 : (uniq (refs c)).Perm (List.range c.P.length) := by
+    refine (List.perm_ext_iff_of_nodup (nodup_uniq _) List.nodup_range).mpr ?_
+    intro a
+    rw [mem_uniq, List.mem_range]
+    constructor
+    · intro ha
+      obtain ⟨p, hp, e⟩ := List.mem_map.mp ha
+      exact e ▸ (h.1 p hp).1
+    · intro ha
+      obtain ⟨p, hp, e⟩ := h.2.1 a ha
+      exact List.mem_map.mpr ⟨p, hp, e⟩
+  simpa using h1.length_eq
+
+/-! ## row assignment -/
+
+/-- the `current_row` array after/before processing: a counter per reference index -/
+theorem rowsGo_spec (rf : List Nat) (cur : List Nat) (h : ∀ x ∈ rf, x < cur.length) :
+    ∃ r, rowsGo rf cur = some r ∧ r.length = rf.length ∧
+      ∀ k (hk : k < rf.length), r[k]? = some (cur[rf[k]]?.getD 0 + (rf.take k).count rf[k]) := by
+  induction rf generalizing cur with
+  | nil => exact ⟨[], rfl, rfl, by simp⟩
+  | cons p ps ih =>
+    have hp : p < cur.length := h p (List.mem_cons_self ..)
+    obtain ⟨r, hr, hl, hs⟩ := ih (cur.set p (cur[p] + 1))
+      (by intro x hx; simpa using h x (List.mem_cons_of_mem _ hx))
+    refine ⟨cur[p] :: r, ?_, by simp [hl], ?_⟩
+    · unfold rowsGo
+      simp [List.getElem?_eq_getElem hp, hr]
+    · intro k hk
+      cases k with
+      | zero => simp [List.getElem?_eq_getElem hp]
+      | succ k =>
+        have hk' : k < ps.length := by simpa using hk
+        have := hs k hk'
+        simp only [List.getElem?_cons_succ, List.getElem_cons_succ, List.take_succ_cons, this]
+        congr 1
+        by_cases e : ps[k] = p
+        · have hp' : ps[k] < cur.length := e ▸ hp
+          simp [e, hp]
+          omega
+        · have e' : ¬ p = ps[k] := fun h => e h.symm
+          simp [e']
+
+theorem rows_spec (rf : List Nat) (h : ∀ x ∈ rf, x < rf.length) :
+    ∃ r, rows rf = some r ∧ r.length = rf.length ∧
+      ∀ k (hk : k < rf.length), r[k]? = some ((rf.take k).count rf[k]) := by
+  obtain ⟨r, hr, hl, hs⟩ := rowsGo_spec rf (List.replicate rf.length 0) (by simpa using h)
+  refine ⟨r, hr, hl, ?_⟩
+  intro k hk
+  rw [hs k hk]
+  have : rf[k] < rf.length := h _ (List.getElem_mem hk)
+  simp [this]
+
+theorem rows_none_of_oob (rf : List Nat) (cur : List Nat) (h : ∃ x ∈ rf, cur.length ≤ x) :
+    rowsGo rf cur = none := by
+  induction rf generalizing cur with
+  | nil => simp at h
+  | cons p ps ih =>
+    unfold rowsGo
+    by_cases hp : p < cur.length
+    · simp only [List.getElem?_eq_getElem hp]
+      obtain ⟨x, hx, hxl⟩ := h
+      rcases List.mem_cons.mp hx with rfl | hx
+      · omega
+      · rw [ih _ ⟨x, hx, by simpa using hxl⟩]; rfl
+    · rw [List.getElem?_eq_none (by omega)]
+
+theorem count_take_lt_count (rf : List Nat) (k : Nat) (hk : k < rf.length) :
+    (rf.take k).count rf[k] < rf.count rf[k] := by
+  have h1 : rf.take (k + 1) = rf.take k ++ [rf[k]] := by
+    rw [List.take_add_one, List.getElem?_eq_getElem hk]; rfl
+  have h2 : (rf.take (k + 1)).count rf[k] ≤ rf.count rf[k] :=
+    (List.take_sublist _ _).count_le _
+  rw [h1, List.count_append] at h2
+  simp at h2
+  omega
+
+theorem count_take_injective (rf : List Nat) (k l : Nat) (hk : k < rf.length) (hl : l < rf.length)
+    (hx : rf[k] = rf[l]) (hc : (rf.take k).count rf[k] = (rf.take l).count rf[l]) : k = l := by
+  by_contra hne
+  -- wlog k < l
+  have key : ∀ a b (ha : a < rf.length) (hb : b < rf.length), a < b → rf[a] = rf[b] →
+      (rf.take a).count rf[a] < (rf.take b).count rf[b] := by
+    intro a b ha hb hab e
+    have h1 : rf.take (a + 1) = rf.take a ++ [rf[a]] := by
+      rw [List.take_add_one, List.getElem?_eq_getElem ha]; rfl
+    have h2 : (rf.take (a + 1)).count rf[a] ≤ (rf.take b).count rf[a] := by
+      have : rf.take (a + 1) = (rf.take b).take (a + 1) := by
+        rw [List.take_take]; congr 1; omega
+      rw [this]
+      exact (List.take_sublist _ _).count_le _
+    rw [h1, List.count_append] at h2
+    simp at h2
+    rw [← e]; omega
+  rcases Nat.lt_or_gt_of_ne hne with h | h
+  · have := key k l hk hl h hx; omega
+  · have := key l k hl hk h hx.symm; omega
+
 end Compact
